@@ -397,6 +397,20 @@ fn main() {
                 .map(|o| rewriter::print_js(&o.code, &o.source_map, &o.original_source_map, &config).into_owned());
         }));
     }
+    // the same file went through the rewriter before, when every external file it names had OTHER content (a map that has been
+    // regenerated since): nothing of that earlier call may survive into the call under test
+    if !w.real_fs && !w.files.is_empty() {
+        let stale: std::collections::HashMap<String, String> = w.files.keys().enumerate()
+            .map(|(i, k)| (k.clone(), format!("{{\"version\":3,\"sources\":[\"verif-stale-{i}.ts\"],\"names\":[],\"mappings\":\"AAAA;AACA;AACA\"}}"))).collect();
+        let (s0, f0) = (w.source.clone(), w.file_name.clone());
+        let prev0 = std::panic::take_hook();
+        std::panic::set_hook(Box::new(|_| {}));
+        let _ = std::panic::catch_unwind(std::panic::AssertUnwindSafe(|| {
+            let _ = rewriter::rewrite_js(s0, &f0, &config, &MemReader { files: stale })
+                .map(|o| rewriter::print_js(&o.code, &o.source_map, &o.original_source_map, &config).into_owned());
+        }));
+        std::panic::set_hook(prev0);
+    }
     let prev = std::panic::take_hook();
     std::panic::set_hook(Box::new(|_| {}));
     let result = std::panic::catch_unwind(std::panic::AssertUnwindSafe(|| {
@@ -784,6 +798,46 @@ fn main() {
                         },
                         _ => true,
                     }
+                }
+                // {"gen": "text in output", "gen_nth": 0, "from_line": a, "to_line": b}: holds (= violation) when the generated
+                // position resolves to an input line outside [a, b] (0-based), or to nothing
+                "mapped_outside_lines" => {
+                    let o = v.as_object().unwrap();
+                    let gen = o["gen"].as_str().unwrap();
+                    let gen_nth = o.get("gen_nth").and_then(|x| x.as_u64()).unwrap_or(0) as usize;
+                    let (a, b) = (o["from_line"].as_u64().unwrap() as u32, o["to_line"].as_u64().unwrap() as u32);
+                    match (trailer_map(&content), pos_of(&content, gen, gen_nth)) {
+                        (Some(m), Some((gl, gc))) => match m.lookup_token(gl, gc) {
+                            Some(t) => {
+                                println!("--- lookup gen {gl}:{gc} -> {}:{} want a line in {a}..={b}", t.get_src_line(), t.get_src_col());
+                                !(t.has_source() && t.get_src_line() >= a && t.get_src_line() <= b)
+                            }
+                            None => true,
+                        },
+                        (Some(_), None) => false,   // the text is not in the output: nothing to judge
+                        _ => true,
+                    }
+                }
+                // {"gen_line_contains": "text", "from_line": a, "to_line": b}: holds (= violation) when some map entry on a generated
+                // line that contains the text resolves to an input line outside [a, b] (0-based)
+                "line_tokens_mapped_outside_lines" => {
+                    let o = v.as_object().unwrap();
+                    let txt = o["gen_line_contains"].as_str().unwrap();
+                    let (a, b) = (o["from_line"].as_u64().unwrap() as u32, o["to_line"].as_u64().unwrap() as u32);
+                    let mut bad = None;
+                    if let Some(m) = trailer_map(&content) {
+                        let body_end = content.rfind("//# sourceMappingURL=").unwrap_or(content.len());
+                        for (li, line) in content[..body_end].split('\n').enumerate() {
+                            if !line.contains(txt) { continue; }
+                            for t in m.tokens() {
+                                if t.get_dst_line() == li as u32 && t.has_source() && (t.get_src_line() < a || t.get_src_line() > b) && bad.is_none() {
+                                    bad = Some(format!("generated {}:{} -> {}:{}", li, t.get_dst_col(), t.get_src_line(), t.get_src_col()));
+                                }
+                            }
+                        }
+                    } else { bad = Some("no map".to_string()); }
+                    println!("--- entry of the line(s) containing {:?} mapped outside {a}..={b}: {:?}", txt, bad);
+                    bad.is_some()
                 }
                 "code_count_ne" => {
                     let a = v.as_array().unwrap();
